@@ -797,7 +797,11 @@ func (a *Act) callRetainsConservative(c *ssa.CallCommon) bool {
 func (a *Act) tailrecOblige(st *State, li *loopInfo, outT Term, what string) {
 	tr := a.tr
 	ts := a.contract.tailrec[li.ord]
-	if ts == nil || ts.rel == nil || li.headSt == nil || !tr.wantClause(ts.rel) {
+	pre := what == "return-before-loop"
+	if pre {
+		what = "return"
+	}
+	if ts == nil || ts.rel == nil || (li.headSt == nil && !pre) || !tr.wantClause(ts.rel) {
 		return
 	}
 	call, ok := ts.rel.expr.(*ast.CallExpr)
@@ -808,6 +812,11 @@ func (a *Act) tailrecOblige(st *State, li *loopInfo, outT Term, what string) {
 	var errs []string
 	pkg := tr.eng.pkgOf(a.fn)
 	headEnv := &specEnv{a: a, tr: tr, pkg: pkg, st: li.headSt, old: a.entryState, li: li, errs: &errs, vars: map[string]specVal{}}
+	if pre {
+		// the names of the relation's arguments are the parameters as passed
+		headEnv = &specEnv{a: nil, tr: tr, pkg: pkg, st: a.entryState, old: a.entryState, errs: &errs,
+			vars: a.bindContract(a.contract, a.entryState, a.args, nil, a.fn.Signature, true)}
+	}
 	vars := map[string]specVal{"OUT": {outT, tOutcome}}
 	args := make([]ast.Expr, len(call.Args))
 	for i, x := range call.Args {
